@@ -133,7 +133,10 @@ def generate(rng, tier):
     if rng.random() < 0.15:
         # some thread READS source text that mentions a gensym-style name with a number near the counter
         t = rng.randrange(nthreads)
-        threads[t].insert(rng.randrange(len(threads[t]) + 1), {"k": "read", "n": rng.choice([1, 2, 2, 3, 4, 6])})
+        if rng.random() < 0.7:
+            # ... while the other calls use the same (empty) label, so that a counter that moves backwards shows
+            threads = [[{"k": "none"} for _ in calls] for calls in threads]
+        threads[t].insert(rng.randrange(len(threads[t]) + 1), {"k": "read", "n": rng.choice([1, 1, 2, 2, 3, 4])})
     if rng.random() < 0.2:
         # two calls (same or different threads) whose labels are distinct strings with the same mangling, or equal
         a, b = rng.choice(ALIAS_PAIRS)
@@ -226,7 +229,7 @@ def _import_from_source():
     name = "c38m_%d_%d" % (os.getpid(), _state["nimp"])
     path = os.path.join(base, name + ".hy")
     with open(path, "w") as f:
-        f.write('(defmacro c38g [] (setv g (hy.gensym "imp")) `(quote ~g))\n(setv syms [(c38g) (c38g) (hy.gensym "rt")])\n')
+        f.write('(defmacro c38g [] (setv g (hy.gensym)) `(quote ~g))\n(defmacro c38x [] (setv g (hy.gensym "x")) `(quote ~g))\n(setv syms [(c38g) (c38g) (c38x) (hy.gensym) (hy.gensym "x")])\n')
     sys.path.insert(0, base)
     try:
         importlib.invalidate_caches()
